@@ -65,6 +65,8 @@ func countLines(b []byte) int {
 }
 
 func runC03(t *testing.T, c *Case, o RunOpts) *Result {
+	noteCase(c)
+	defer progress.Add(1)
 	var pl C03Plan
 	if err := json.Unmarshal(c.Plan, &pl); err != nil {
 		return &Result{ToolErr: err.Error()}
